@@ -41,6 +41,9 @@ var (
 	paramVals  = []string{"", "", "10", "15", "abc", "1"}
 
 	rejectStatuses = []int{401, 403, 404, 503}
+	// rejectStatusesOr0 adds the rejection built without ws.RejectionStatus
+	// (Status 0): it carries no chosen status, so the answer is 500.
+	rejectStatusesOr0 = []int{401, 403, 404, 503, 0, 0}
 )
 
 var goodValues = [NumRequired][]string{
@@ -150,6 +153,24 @@ type Plan struct {
 	Mode string // "valid", "single", "free"
 	Bad  [NumComp]bool
 	Open bool
+	// ExtFail marks (by index into ExtNames) the extension names a
+	// negotiator objects to. It is independent of Bad[CNegotiate]: the
+	// configuration carries the failing policies either way; the request
+	// offers such a name (in a well-formed line) only when Bad[CNegotiate].
+	ExtFail [4]bool
+}
+
+// ExtNames are the extension names the generators use.
+var ExtNames = extVocab
+
+func (p Plan) extNames(failing bool) []string {
+	var out []string
+	for i, n := range extVocab {
+		if p.ExtFail[i] == failing {
+			out = append(out, n)
+		}
+	}
+	return out
 }
 
 // NumBad counts the broken components.
@@ -190,6 +211,23 @@ func GenPlan(t *rapid.T, label string, kind Kind) Plan {
 		p.Open = rapid.IntRange(0, 2).Draw(t, label+".open") == 0
 		for _, c := range comps {
 			p.Bad[c] = rapid.IntRange(0, 5).Draw(t, label+"."+c.String()) == 0
+		}
+	}
+	// failing negotiator policies: a proper, non-empty subset of the names
+	// whenever the negotiator has to object, and in half of the other plans
+	if p.Bad[CNegotiate] || rapid.Bool().Draw(t, label+".extfail") {
+		n := 0
+		for i := range p.ExtFail {
+			p.ExtFail[i] = rapid.IntRange(0, 2).Draw(t, label+".extfail."+extVocab[i]) == 0
+			if p.ExtFail[i] {
+				n++
+			}
+		}
+		k := rapid.IntRange(0, len(p.ExtFail)-1).Draw(t, label+".extfail.fix")
+		if n == 0 {
+			p.ExtFail[k] = true
+		} else if n == len(p.ExtFail) {
+			p.ExtFail[k] = false
 		}
 	}
 	return p
@@ -353,18 +391,25 @@ func genProtocolValue(t *rapid.T, label string, open bool) string {
 	return genTokenList(t, label, protoVocab, 4, open)
 }
 
-func genExtensionValue(t *rapid.T, label string, open bool) string {
+func genExtensionValue(t *rapid.T, label string, open bool, names []string, force string) string {
 	if open && rapid.IntRange(0, 3).Draw(t, label+".odd") == 0 {
-		return rapid.SampledFrom([]string{"", "x-a;", ";x-a", "x-a; p=\"1\"", "x-a; p=\"a b\"", "x-a;\tp=1", "x-a,,x-b", "x-a; p = 1", "x-a; =1",
-			"x-a; p=\"a\\\"b\"", "x-a; p=1; p", "x-a x-b", "x-a; p=\"unterminated", "permessage-deflate; client_max_window_bits=\"15\""}).Draw(t, label+".oddv")
+		return rapid.SampledFrom(OddExtensionValues).Draw(t, label+".oddv")
 	}
 	n := rapid.IntRange(1, 3).Draw(t, label+".n")
+	forceAt := -1
+	if force != "" {
+		forceAt = rapid.IntRange(0, n-1).Draw(t, label+".forceat")
+	}
 	var b strings.Builder
 	for i := 0; i < n; i++ {
 		if i > 0 {
 			b.WriteString(rapid.SampledFrom([]string{", ", ",", " , "}).Draw(t, label+".sep"))
 		}
-		b.WriteString(rapid.SampledFrom(extVocab).Draw(t, label+".name"))
+		name := rapid.SampledFrom(names).Draw(t, label+".name")
+		if i == forceAt {
+			name = force
+		}
+		b.WriteString(name)
 		np := rapid.IntRange(0, 2).Draw(t, label+".np")
 		for j := 0; j < np; j++ {
 			b.WriteString(rapid.SampledFrom([]string{"; ", ";", " ; "}).Draw(t, label+".psep"))
@@ -376,6 +421,11 @@ func genExtensionValue(t *rapid.T, label string, open bool) string {
 	}
 	return b.String()
 }
+
+// OddExtensionValues are Sec-WebSocket-Extensions values that are not plain
+// option lists (open class: their treatment is decided by httphead).
+var OddExtensionValues = []string{"", "x-a;", ";x-a", "x-a; p=\"1\"", "x-a; p=\"a b\"", "x-a;\tp=1", "x-a,,x-b", "x-a; p = 1", "x-a; =1",
+	"x-a; p=\"a\\\"b\"", "x-a x-b", "x-a; p=\"unterminated", "permessage-deflate; client_max_window_bits=\"15\""}
 
 var extraHeaders = []HeaderKV{
 	{"Origin", "http://example.com"},
@@ -475,12 +525,28 @@ func GenRequest(t *rapid.T, label string, plan Plan) *Request {
 				Value: genProtocolValue(t, label+".proto", plan.Open)})
 		}
 	}
-	// extension offers
+	// extension offers: 1-3 header lines. Unless Bad[CNegotiate], only names
+	// the negotiator does not object to are offered; with it, one offer of
+	// one line carries a failing name and the other lines are mostly clean,
+	// so that (failing, accepting) and (accepting, failing) line orders
+	// are both common.
 	if plan.Bad[CNegotiate] || rapid.Bool().Draw(t, label+".hasext") {
-		n := rapid.IntRange(1, 2).Draw(t, label+".next")
+		n := rapid.SampledFrom([]int{1, 2, 2, 2, 3}).Draw(t, label+".next")
+		okNames, failNames := plan.extNames(false), plan.extNames(true)
+		failLine := -1
+		if plan.Bad[CNegotiate] && len(failNames) > 0 {
+			failLine = rapid.IntRange(0, n-1).Draw(t, label+".failline")
+		}
 		for i := 0; i < n; i++ {
+			names, force := okNames, ""
+			switch {
+			case i == failLine:
+				force = rapid.SampledFrom(failNames).Draw(t, label+".failname")
+			case failLine >= 0 && rapid.IntRange(0, 2).Draw(t, label+".anyname") == 0:
+				names = extVocab
+			}
 			lines = append(lines, Line{Name: genName(t, label+".ename", NameExtensions, rapid.IntRange(0, 3).Draw(t, label+".evary") == 0), Lead: " ",
-				Value: genExtensionValue(t, label+".ext", plan.Open && !plan.Bad[CNegotiate])})
+				Value: genExtensionValue(t, label+".ext", plan.Open && !plan.Bad[CNegotiate], names, force)})
 		}
 	}
 	// extra headers
@@ -549,7 +615,7 @@ func genOutcome(t *rapid.T, label, who string, bad bool, acceptHdr bool) Outcome
 	if rapid.Bool().Draw(t, label+".plain") {
 		return Outcome{Kind: CbError, Reason: reason}
 	}
-	return Outcome{Kind: CbReject, Status: rapid.SampledFrom(rejectStatuses).Draw(t, label+".status"), Reason: reason,
+	return Outcome{Kind: CbReject, Status: rapid.SampledFrom(rejectStatusesOr0).Draw(t, label+".status"), Reason: reason,
 		Headers: genHeaders(t, label+".hdr", []string{"X-Reject-Why", "WWW-Authenticate", "Retry-After", "X-Rej-B"}, 2)}
 }
 
@@ -557,9 +623,10 @@ func genOutcome(t *rapid.T, label, who string, bad bool, acceptHdr bool) Outcome
 var BufSizes = []int{0, 64, 128, 4096}
 
 // GenConfig draws an upgrader configuration that follows plan: callbacks
-// marked Bad object (plain error or rejection with a status from
-// {401,403,404,503} and headers); with Bad[CNegotiate] the negotiator objects
-// to every known extension name.
+// marked Bad object (plain error, or rejection with headers and a status from
+// {401,403,404,503} or without a status); the negotiator objects to the names
+// in plan.ExtFail (the mode is Negotiate when Bad[CNegotiate]) and accepts or
+// declines the others.
 func GenConfig(t *rapid.T, label string, kind Kind, plan Plan) *Config {
 	c := &Config{Kind: kind}
 	c.ReadBuf = rapid.SampledFrom(BufSizes).Draw(t, label+".rbuf")
@@ -577,14 +644,14 @@ func GenConfig(t *rapid.T, label string, kind Kind, plan Plan) *Config {
 		c.ExtMode = ExtNegotiate
 	}
 	c.Ext = map[string]ExtPolicy{}
-	for _, n := range extVocab {
+	for i, n := range extVocab {
 		var p ExtPolicy
 		switch {
-		case plan.Bad[CNegotiate]:
+		case plan.ExtFail[i]:
 			if rapid.Bool().Draw(t, label+".ext.plain."+n) {
 				p = ExtPolicy{Act: ExtPlainError, Reason: "negotiation of " + n + " failed"}
 			} else {
-				p = ExtPolicy{Act: ExtReject, Status: rapid.SampledFrom(rejectStatuses).Draw(t, label+".ext.status."+n), Reason: "no " + n + " here",
+				p = ExtPolicy{Act: ExtReject, Status: rapid.SampledFrom(rejectStatusesOr0).Draw(t, label+".ext.status."+n), Reason: "no " + n + " here",
 					Headers: genHeaders(t, label+".ext.hdr."+n, []string{"X-Reject-Why", "X-Rej-B"}, 2)}
 			}
 		default:
